@@ -345,6 +345,11 @@ def run_scenario(seed, tier):
         stats["outcomes"][r["outcome"]] = stats["outcomes"].get(r["outcome"], 0) + 1
         if r["leaked"]:
             stats["leaked_temp_files"] += 1
+            # narrower counter: the call *raised* (no kill), and neither the kill nor the clean-up
+            # itself was the injected fault - the library had every chance to tidy up
+            if r["outcome"].endswith("raised") and not any(
+                    act == "crash" or label.startswith("unlink") for _, label, act in r["fired"]):
+                stats["leaked_after_plain_failure"] = stats.get("leaked_after_plain_failure", 0) + 1
         if r.get("retry") and r["retry"] != "ok":
             stats["retry_failed"] = stats.get("retry_failed", 0) + 1
         stats["short_writes"] = stats.get("short_writes", 0) + r.get("short_writes", 0)
@@ -441,6 +446,7 @@ def run(tier, seed):
                 agg[k] += st[k]
             agg["retry_failed"] = agg.get("retry_failed", 0) + st.get("retry_failed", 0)
             agg["short_writes"] = agg.get("short_writes", 0) + st.get("short_writes", 0)
+            agg["leaked_plain"] = agg.get("leaked_plain", 0) + st.get("leaked_after_plain_failure", 0)
             for k in ("fired", "outcomes", "labels"):
                 for kk, vv in st[k].items():
                     agg[k][kk] = agg[k].get(kk, 0) + vv
@@ -504,6 +510,9 @@ def run(tier, seed):
             "instant_labels": agg["labels"],
             "outcomes": agg["outcomes"],
             "executions_leaving_stale_temp_files": agg["leaked_temp_files"],
+            # of those: the call raised, and neither a kill nor the clean-up (unlink) was the injected fault;
+            # C17 does not forbid it (second audit), so it is counted, not alarmed - 0 on the tree as repaired
+            "executions_that_raised_with_clean_up_unhindered_and_left_temp_files": agg.get("leaked_plain", 0),
             "fault_free_retries_after_a_fault_that_did_not_succeed": agg.get("retry_failed", 0),
             "file_name_classes": agg["name_classes"],
             "formats": agg["formats"],
